@@ -439,6 +439,10 @@ func (p *specParser) parsePrimary() (*SX, error) {
 	case "num", "real", "str", "char":
 		return &SX{Op: t.kind, Tok: t.text, Pos: t.pos}, nil
 	case "ident":
+		if t.text == "forall" || t.text == "exists" {
+			p.p--
+			return p.parseExpr()
+		}
 		return &SX{Op: "ident", Tok: t.text, Pos: t.pos}, nil
 	case "op":
 		if t.text == "(" {
